@@ -1,5 +1,26 @@
 /-
   Layer A is the NON-PREEMPTED fragment of Layer B.
+
+  Layer A (`CachedModel/State.lean`) runs each client call, each worker command and each sweep atomically; Layer B
+  (`CachedModel/LayerB.lean`) runs the same programs one atomic action at a time. This file proves that running one
+  Layer B thread alone, from one Layer A event boundary to the next, is exactly the Layer A event:
+
+  * §2 worker    `workerRun`, `worker_refines` (+ `_core`, `_drain`); heart: `loop_sim` (`createLoop` against the cycle
+                 `loopDecide → evRemove → evSub → evStore → evSpace → fill`), `put_sim`, `worker_put`;
+  * §3 clients   `clientRun`, `client_refines` (`putW`, `delete`, `get`, `weight`, `upsert`), `afterCall`,
+                 `parked_is_send` (Layer A's `.parked` = the Layer B client at `.send cmd` with the queue full);
+  * §4 sweeper   `sweeperRun`, `sweeper_refines` for EVERY visiting order (`ValidVisits`), `sweepEntries_perm`,
+                 `evictId_comm` (evictions of different ids commute);
+  * §5           `atRest`, `runActs`, `layerA_step_is_layerB_run`.
+
+  FINDINGS
+  * `worker_shutdown` / `worker_shutdown_drift`: on the `Shutdown` command Layer A sets `g.worker := .draining`,
+    Layer B only moves its pc to `.drain` and leaves `g.worker = .running`. All other fields agree, and from there both
+    drain alike (`worker_drain_B`). This is the only place where the two layers' shared states differ.
+  * the fuel `4 * |kw| + 12` is not enough for `workerRun` (example after `worker_refines`): an eviction is five
+    actions; `workerFuel = 5 * |kw| + 12` is proved sufficient.
+  * `sweeper_refines` needs the expiry index to have unique keys (`AMap.NoDup g.ttl`): on a duplicated key Layer B's
+    `ttl.del` removes every copy, Layer A's `filter` only the due ones.
 -/
 import CachedModel.LayerB
 import CachedProofs.Properties.C06
@@ -1754,7 +1775,7 @@ example :
 /-- the hypotheses of `sweeper_refines` hold of the example state and the visiting order `[3, 1, 2]` -/
 example : AMap.NoDup exS.ttl ∧ ValidVisits (shardEntries exS) [3, 1, 2] ∧ exS.sweeperAlive = true := by
   have h : shardEntries exS = [(2, 10), (1, 20), (3, 9 * nsPerSec)] := by decide
-  refine ⟨by decide, ⟨by decide, ?_⟩, rfl⟩
+  refine ⟨by unfold AMap.NoDup; decide, ⟨by decide, ?_⟩, rfl⟩
   intro id
   rw [h]
   simp only [List.map_cons, List.map_nil, List.mem_cons, List.not_mem_nil, or_false]
